@@ -1045,11 +1045,11 @@ func main() {
 			runQuery(c, f.Graph, f.Query, true, fmt.Sprint("fixed", i))
 		}
 		dirCases(c)
-		n := c.Scale(120, 2500)
+		n := c.Scale(100, 2500)
 		for i := 0; i < n; i++ {
 			r := c.Rng.Fork()
 			d := generate(r)
-			runGraph(c, r, d, fmt.Sprint("g", i), c.Scale(6, 9))
+			runGraph(c, r, d, fmt.Sprint("g", i), c.Scale(10, 12))
 		}
 		c.Note("a reported target that the reference does not require is not a violation (histogram extra_reported counts them per query)")
 	})
